@@ -4802,6 +4802,23 @@ impl RelationalEngine {
 
         self.delete_maybe_durable(&meta_key)?;
 
+        // The in-memory B-tree maps are keyed by table NAME: remove them with the table, or a later
+        // table of the same name inherits the dropped table's entries when an index is created on it.
+        let entries_removed = {
+            let mut indexes = self.btree_indexes.write();
+            let keys: Vec<(String, String)> = indexes
+                .keys()
+                .filter(|(t, _)| t == table)
+                .cloned()
+                .collect();
+            keys.iter()
+                .map(|key| indexes.remove(key).map_or(0, |btree| btree.len()))
+                .sum::<usize>()
+        };
+        if entries_removed > 0 {
+            Self::saturating_sub_atomic(&self.btree_entry_count, entries_removed);
+        }
+
         self.row_counters.remove(table);
 
         // Decrement table count after successful deletion
